@@ -110,6 +110,13 @@ func c14Run(ctx *core.Ctx, msize uint32, dotu bool, thorough bool) core.Result {
 			offs = append(offs, r.Intn(n+iou+1))
 			cnts = append(cnts, r.Intn(2*iou+2))
 		}
+		// slices handed back by Clnt.Read are kept (a caller collecting chunks before joining them) and
+		// compared with the file again once the whole sequence has run
+		type keptRead struct {
+			b      []byte
+			off, k int
+		}
+		var kept []keptRead
 		for i, off := range offs {
 			if off < 0 {
 				continue
@@ -139,9 +146,21 @@ func c14Run(ctx *core.Ctx, msize uint32, dotu bool, thorough bool) core.Result {
 				if len(b) != k || !bytes.Equal(b, content[min(off, n):min(off, n)+k]) {
 					fail(fmt.Sprintf("read-differs;%s;%s;%s", lc, offClass(off, n, iou), cntClass(cnt, iou)),
 						fmt.Sprintf("Read(off %d, count %d) of a %d-byte file returned %d bytes, expected %d bytes of the file", off, cnt, n, len(b), k), nil)
+				} else if k > 0 {
+					kept = append(kept, keptRead{b, min(off, n), k})
 				}
 				res.Sig(fmt.Sprintf("read|%d|%v|%s|%s|%s", msize, dotu, lc, offClass(off, n, iou), cntClass(cnt, iou)))
 			}
+		}
+		changed := 0
+		for _, kr := range kept {
+			if !bytes.Equal(kr.b, content[kr.off:kr.off+kr.k]) {
+				changed++
+			}
+		}
+		res.Count("read_results_rechecked_after_later_reads", int64(len(kept)))
+		if changed > 0 {
+			fail("read-result-changed-later;"+lc, fmt.Sprintf("%d of %d byte slices returned by Clnt.Read of a %d-byte file were correct when returned and no longer equal the file after later reads on the connection", changed, len(kept), n), nil)
 		}
 		// ---- File.Read sequentially with a given buffer size: concatenation == file, then EOF
 		for _, bs := range []int{1 + r.Intn(7), iou - 1, iou, iou + 1, 3 * iou, n + 5} {
